@@ -46,9 +46,11 @@ def c1_validate(fb, rep):
     tests = membership_tests(f)
     rep.floor(clause, 'membership validation tests in getBookMove', len(tests), 1)
     # result cleared first
-    clears = [(b, i) for b, i, e in f.events() if e.get('k') == 'call' and cname(e).endswith('Move::operator=') and isinstance(e.get('recv'), dict) and e['recv'].get('n') == 'out'
+    out_ids = {p_['id'] for p_ in f.d.get('params', []) if 'Move' in (p_.get('t') or '') and '&' in (p_.get('t') or '') and 'const' not in (p_.get('t') or '')}
+    legal_ids = {(_strip(e_['args'][1]) or {}).get('id') for _, _, e_ in f.events() if e_.get('k') == 'call' and cname(e_) == 'MoveGen::removeIllegal' and len(e_.get('args', [])) >= 2}
+    clears = [(b, i) for b, i, e in f.events() if e.get('k') == 'call' and cname(e).endswith('Move::operator=') and isinstance(e.get('recv'), dict) and e['recv'].get('id') in out_ids
               and any(n.get('k') == 'ctor' and not n.get('args') for n in walk((e.get('args') or [{}])[0]))]
-    sets = [(b, i, e) for b, i, e in f.events() if e.get('k') == 'call' and cname(e).endswith('Move::operator=') and isinstance(e.get('recv'), dict) and e['recv'].get('n') == 'out'
+    sets = [(b, i, e) for b, i, e in f.events() if e.get('k') == 'call' and cname(e).endswith('Move::operator=') and isinstance(e.get('recv'), dict) and e['recv'].get('id') in out_ids
             and not any(n.get('k') == 'ctor' and not n.get('args') for n in walk((e.get('args') or [{}])[0]))]
     rep.ob(clause, 'K2 must-precede', 'getBookMove clears the result before anything else can return', bool(clears) and all(f.pos_dominates(clears[0], (b, i)) for b, i, e in f.events() if e.get('k') == 'ret'),
            f.where, '', f.sname)
@@ -60,7 +62,10 @@ def c1_validate(fb, rep):
         w = f.path_avoiding((t['reject'], -1), lambda ev: ev is not None and any(ev is s[2] for s in sets), lambda ev: ev is not None and ev.get('k') == 'ret')
         rep.ob(clause, 'K2 must-pass-through', 'getBookMove: an entry that is not a legal move ends the probe with no move', w is None, '%s:%s' % (f.file, t['line']), '', f.sname)
         # the compared list is the legal move list; the candidate is the entry's move
-        rep.ob(clause, 'K15 provenance', 'getBookMove validates the entry\'s own move against the generated legal moves', 'legalMoves' in t['list'] and t['candidate'].endswith('.move'),
+        list_ok = any(n.get('k') == 'var' and n.get('id') in legal_ids for n in walk(t['list_tree']))
+        cand0 = _strip(t['candidate_tree'])
+        cand_ok = isinstance(cand0, dict) and cand0.get('k') == 'mem' and cand0.get('f', '').endswith('BookEntry::move')
+        rep.ob(clause, 'K15 provenance', 'getBookMove validates the entry\'s own move against the generated legal moves', list_ok and cand_ok,
                '%s:%s' % (f.file, t['line']), 'compares %s with %s' % (t['candidate'], t['list']), f.sname)
         # the test is applied to every candidate: it sits in a loop over bookMoves
         rep.ob(clause, 'K2 loop shape', 'getBookMove validates every candidate (the test is inside the loop over all entries)', bool(t['loops']), '%s:%s' % (f.file, t['line']), '', f.sname)
@@ -70,13 +75,17 @@ def c1_validate(fb, rep):
             ok = bool(hdrs) and all(h in f.dominators().get(b, set()) and not G._reaches(f, b, h) for h in hdrs[:1])
             rep.ob(clause, 'K2 must-precede', 'getBookMove: a move is produced only after all candidates were validated', ok, R.site(f, e), '', f.sname)
             src = show((e.get('args') or [{}])[0], 100)
-            rep.ob(clause, 'K15 provenance', 'getBookMove returns a move taken from the validated entries', src.endswith('.move') and 'be' in src, R.site(f, e), src, f.sname)
+            s0 = _strip((e.get('args') or [{}])[0])
+            rep.ob(clause, 'K15 provenance', 'getBookMove returns a move taken from the validated entries', isinstance(s0, dict) and s0.get('k') == 'mem' and s0.get('f', '').endswith('BookEntry::move'),
+                   R.site(f, e), src, f.sname)
     # the legal list is generated and filtered
     gen = [e for _, _, e in f.events() if e.get('k') == 'call' and cname(e) == 'MoveGen::pseudoLegalMoves']
     fil = [e for _, _, e in f.events() if e.get('k') == 'call' and cname(e) == 'MoveGen::removeIllegal']
     rep.ob(clause, 'K2 must-precede', 'getBookMove builds the legal move list with pseudoLegalMoves + removeIllegal', bool(gen) and bool(fil), f.where, '', f.sname)
     # sum <= 0 -> return
-    brs = R.branch_blocks(f, lambda e: e.get('k') == 'bin' and e.get('op') == '<=' and isinstance(_strip(e.get('l')), dict) and _strip(e['l']).get('n') == 'sum' and (_strip(e.get('r')) or {}).get('cv') == 0)
+    sum_ids = {e_['l'].get('id') for _, _, e_ in f.events() if e_.get('k') == 'asg' and e_.get('op') == '+=' and isinstance(e_.get('l'), dict) and
+               any(n.get('k') == 'call' and cname(n) == 'Book::getWeight' for n in walk(e_.get('r') or {}))}
+    brs = R.branch_blocks(f, lambda e: e.get('k') == 'bin' and e.get('op') == '<=' and isinstance(_strip(e.get('l')), dict) and _strip(e['l']).get('id') in sum_ids and (_strip(e.get('r')) or {}).get('cv') == 0)
     okz = False
     for bid, pol, t, fl in brs:
         okz = any(e.get('k') == 'ret' for e in f.blocks[t]['ev']) or f.path_avoiding((t, -1), lambda ev: ev is not None and any(ev is s[2] for s in sets), lambda ev: ev is not None and ev.get('k') == 'ret') is None
@@ -93,58 +102,77 @@ def c2_tables(fb, rep):
     dec = fb.find1('PolyglotBook::getMove')
     if rep.need(clause, enc, 'PolyglotBook::getPGMove') is None or rep.need(clause, dec, 'PolyglotBook::getMove') is None:
         return
-    # promotion tables from the switch structures
-    def switch_map(f, assign_var):
-        """case label(s) -> constant(s) assigned to assign_var in that arm"""
-        out = {}
-        for bid, blk in f.blocks.items():
-            lb = blk.get('label')
-            if not lb or lb.get('k') != 'case':
-                continue
-            # labels falling through share the arm: collect the labels chain
-            vals = set()
-            region = G.region(f, bid, None)
-            cur = bid
-            seen = set()
-            # walk forward until an assignment is found
-            st = [bid]
-            found = None
-            while st and found is None:
-                x = st.pop()
-                if x in seen:
-                    continue
-                seen.add(x)
-                for e in f.blocks[x]['ev']:
-                    if e.get('k') == 'asg' and isinstance(e.get('l'), dict) and e['l'].get('n') == assign_var:
-                        found = e.get('r')
-                        break
-                if found is None:
-                    st.extend(f.blocks[x]['succ'])
-            if found is not None and 'v' in lb:
-                out[lb['v']] = found
-        return out
-    pe = switch_map(enc, 'prom')
-    pd = switch_map(dec, 'promoteTo')
-    consts = {n: fb.const('Piece::' + n) for n in ('WKNIGHT', 'BKNIGHT', 'WBISHOP', 'BBISHOP', 'WROOK', 'BROOK', 'WQUEEN', 'BQUEEN', 'EMPTY')}
-    rep.floor(clause, 'promotion arms in the encoder', len(pe), 8)
-    rep.floor(clause, 'promotion arms in the decoder', len(pd), 4)
+    # encoder o decoder round trip by exhaustive constant evaluation of the two functions (names play no role):
+    # for both sides, every origin / target pair, every promotion piece of the mover and a king or a non-king on
+    # the origin square, getMove(getPGMove(m)) must give m back - castling included (king e1g1 <-> e1h1 ...)
+    from ..peval import Evaluator, Unknown as EvUnknown
+    W = {n: fb.const('Piece::' + n) for n in ('WKING', 'BKING', 'WPAWN', 'BPAWN', 'WKNIGHT', 'BKNIGHT', 'WBISHOP', 'BBISHOP', 'WROOK', 'BROOK', 'WQUEEN', 'BQUEEN', 'EMPTY')}
+    state = {}
+
+    def stub_from(ev, t, env, depth):
+        return state['move'][0]
+
+    def stub_to(ev, t, env, depth):
+        return state['move'][1]
+
+    def stub_prom(ev, t, env, depth):
+        return state['move'][2]
+
+    def stub_piece(ev, t, env, depth):
+        sq = ev.eval(t['args'][0], env, depth)
+        return state['piece'] if sq == state['move'][0] else W['EMPTY']
+
+    def stub_wtm(ev, t, env, depth):
+        return 1 if state['wtm'] else 0
+
+    def stub_x(ev, t, env, depth):
+        return ev.eval(t['recv'], env, depth) % 8
+
+    def stub_y(ev, t, env, depth):
+        return ev.eval(t['recv'], env, depth) // 8
+
+    def ctor_hook(cls, args):
+        if cls == 'Square' and len(args) == 2:
+            return args[0] + 8 * args[1]
+        if cls == 'Move' and len(args) >= 3:
+            return ('Move', args[0], args[1], args[2])
+        return None
+    ev = Evaluator(fb, stubs={'Move::from': stub_from, 'Move::to': stub_to, 'Move::promoteTo': stub_prom, 'Position::getPiece': stub_piece,
+                              'Position::isWhiteMove': stub_wtm, 'Square::getX': stub_x, 'Square::getY': stub_y}, ctor_hook=ctor_hook)
+    code_param = (dec.d.get('params') or [{}, {}])[1].get('id')
     bad = []
-    for piece, r in pe.items():
-        code = (_strip(r) or {}).get('cv')
-        back = pd.get(code)
-        b0 = _strip(back)
-        ok = isinstance(b0, dict) and b0.get('k') == 'cond' and piece in ((_strip(b0.get('a')) or {}).get('cv'), (_strip(b0.get('b')) or {}).get('cv'))
-        if ok:
-            # white piece on the wtm side
-            wv, bv = (_strip(b0['a']) or {}).get('cv'), (_strip(b0['b']) or {}).get('cv')
-            name_w = [n for n, v in consts.items() if v == wv]
-            name_b = [n for n, v in consts.items() if v == bv]
-            ok = bool(name_w) and bool(name_b) and name_w[0].startswith('W') and name_b[0].startswith('B') and name_w[0][1:] == name_b[0][1:] and 'wtm' in show(b0.get('c'))
-        if not ok:
-            bad.append((piece, code, show(back) if back else None))
-    rep.ob(clause, 'K10 inverse tables', 'polyglot promotion codes: getMove decodes every code getPGMove produces back to the same piece kind for the side to move', not bad,
-           enc.where, 'mismatches (piece, code, decoded): %s' % bad, enc.sname)
-    # bit layout
+    n_eval = 0
+    try:
+        for wtm in (True, False):
+            own = 'W' if wtm else 'B'
+            king, pawn = W[own + 'KING'], W[own + 'PAWN']
+            home = 4 if wtm else 60
+            proms = [W['EMPTY']] + [W[own + x] for x in ('KNIGHT', 'BISHOP', 'ROOK', 'QUEEN')]
+            for frm in range(64):
+                for to in range(64):
+                    if to == frm:
+                        continue
+                    for piece in (king, pawn):
+                        if piece == king and frm == home and to in (home + 3, home - 4):
+                            continue         # a king never moves from its home square onto the rook corner in one move
+                        for pr in (proms if (piece == pawn and (frm + to) % 7 == 0) else proms[:1]):
+                            state.update(move=(frm, to, pr), piece=piece, wtm=wtm)
+                            code = ev.run(enc, {})['ret']
+                            back = ev.run(dec, {('v', code_param): code})['ret']
+                            n_eval += 1
+                            if back != ('Move', frm, to, pr):
+                                bad.append((own, frm, to, pr, 'king' if piece == king else 'other', code, back))
+                                if len(bad) > 5:
+                                    raise StopIteration
+    except StopIteration:
+        pass
+    except EvUnknown as ex:
+        rep.broken(clause, 'constant evaluation of the polyglot move codec left its fragment: %s' % ex)
+        bad = None
+    if bad is not None:
+        rep.ob(clause, 'K10 inverse tables', 'polyglot move codec: getMove(getPGMove(m)) == m for every origin, target, promotion piece and side, castling included', not bad and n_eval > 10000,
+               enc.where, '%d round trips; first failures (side, from, to, promotion, mover, code, decoded): %s' % (n_eval, bad[:3]), enc.sname)
+    # the code word fits the 16-bit field and uses five 3-bit fields
     def shifts(f, op):
         return sorted({(_strip(n.get('r')) or {}).get('cv') for _, _, e in f.events() for n in walk(e) if n.get('k') == 'bin' and n.get('op') == op and 'cv' in (_strip(n.get('r')) or {})})
     se = shifts(enc, '<<')
@@ -152,55 +180,6 @@ def c2_tables(fb, rep):
     masks = sorted({(_strip(n.get('r')) or {}).get('cv') for _, _, e in dec.events() for n in walk(e) if n.get('k') == 'bin' and n.get('op') == '&' and 'cv' in (_strip(n.get('r')) or {})})
     rep.ob(clause, 'K10 inverse layout', 'polyglot move word: encoder shifts and decoder shifts/masks agree (3-bit fields at 0,3,6,9,12)', se == [3, 6, 9, 12] and sd == [3, 6, 9, 12] and masks == [7],
            enc.where, 'encoder << %s, decoder >> %s, masks %s' % (se, sd, masks), enc.sname)
-    # field order: to-file, to-row, from-file, from-row
-    ret = next((e for _, _, e in enc.events() if e.get('k') == 'ret'), None)
-    order_e = [n.get('n') for n in walk(ret) if n.get('k') == 'var'] if ret else []
-    order_d = {}
-    for b, i, e in dec.events():
-        if e.get('k') == 'decl':
-            for v in e.get('vars', []):
-                sh = [(_strip(n.get('r')) or {}).get('cv') for n in walk(v.get('init')) if n.get('k') == 'bin' and n.get('op') == '>>']
-                if any(n.get('k') == 'var' and n.get('n') == 'move' for n in walk(v.get('init'))):
-                    order_d[v['n']] = sh[0] if sh else 0
-    want = {'toFile': 0, 'toRow': 3, 'fromFile': 6, 'fromRow': 9, 'prom': 12}
-    rep.ob(clause, 'K10 inverse layout', 'polyglot move word: field order agrees (to-file, to-row, from-file, from-row, promotion)',
-           order_e == ['toX', 'toY', 'fromX', 'fromY', 'prom'] and order_d == want, dec.where, 'encoder %s, decoder %s' % (order_e, order_d), dec.sname)
-    # castling conversions
-    sq = {n: fb.const(n) for n in ('E1', 'G1', 'C1', 'H1', 'A1', 'E8', 'G8', 'C8', 'H8', 'A8')}
-    def castle_pairs_dec(f):
-        out = set()
-        for b, i, e in f.events():
-            if e.get('k') == 'call' and cname(e).endswith('Square::operator=') and isinstance(e.get('recv'), dict) and e['recv'].get('n') == 'to':
-                newv = next((n.get('cv') for n in walk((e.get('args') or [{}])[0]) if 'cv' in n), None)
-                g = G.guards_of(f, set(f.blocks), b)
-                oldn = [x for x in g if x.startswith('(to ==')]
-                kings = [x for x in g if 'from ==' in x]
-                if oldn and kings:
-                    out.add((kings[-1], oldn[-1], newv))
-        return out
-    dp = castle_pairs_dec(dec)
-    names = {v: k for k, v in sq.items()}
-    dec_pairs = set()
-    for kg, old, newv in dp:
-        k = 'E1' if 'E1' in kg else 'E8'
-        o = old.replace('(to == ', '').rstrip(')')
-        dec_pairs.add((k, o.split('::')[-1], names.get(newv)))
-    want_dec = {('E1', 'H1', 'G1'), ('E1', 'A1', 'C1'), ('E8', 'H8', 'G8'), ('E8', 'A8', 'C8')}
-    rep.ob(clause, 'K10 inverse tables', 'polyglot castling: the decoder maps king-takes-rook to the engine\'s king move for all four castlings', dec_pairs == want_dec, dec.where,
-           'decoder conversions %s' % sorted(dec_pairs), dec.sname)
-    enc_pairs = set()
-    for b, i, e in enc.events():
-        if e.get('k') == 'asg' and isinstance(e.get('l'), dict) and e['l'].get('n') == 'toX':
-            rook = next((n.get('cv') for n in walk(e.get('r')) if n.get('k') in ('int',) and 'cv' in n and n.get('n')), None)
-            rookn = next((n.get('n') for n in walk(e.get('r')) if n.get('k') == 'int' and n.get('n')), None)
-            g = G.guards_of(enc, set(enc.blocks), b)
-            kg = [x for x in g if 'from() ==' in x or 'from ==' in x]
-            tg = [x for x in g if 'to() ==' in x]
-            if kg and tg and rookn:
-                enc_pairs.add(('E1' if 'E1' in kg[-1] else 'E8', tg[-1].split('== ')[-1].rstrip(')').split('::')[-1], rookn.split('::')[-1]))
-    want_enc = {('E1', 'G1', 'H1'), ('E1', 'C1', 'A1'), ('E8', 'G8', 'H8'), ('E8', 'C8', 'A8')}
-    rep.ob(clause, 'K10 inverse tables', 'polyglot castling: the encoder is the inverse conversion for all four castlings', enc_pairs == want_enc, enc.where,
-           'encoder conversions %s' % sorted(enc_pairs), enc.sname)
     # the king test guards both conversions
     for f, nm in ((enc, 'encoder'), (dec, 'decoder')):
         kt = [show((blk.get('term') or {}).get('cond') or {}, 300) for blk in f.blocks.values() if 'KING' in show((blk.get('term') or {}).get('cond') or {}, 300)]
@@ -214,7 +193,7 @@ def c2_tables(fb, rep):
         bad = []
         try:
             for name in ('WQUEEN', 'WROOK', 'WBISHOP', 'WKNIGHT', 'BQUEEN', 'BROOK', 'BBISHOP', 'BKNIGHT', 'EMPTY'):
-                pv = consts.get(name) if name in consts else fb.const('Piece::' + name)
+                pv = fb.const('Piece::' + name)
                 r1 = _run_switchy(ev, p2p, {('v', p2p.d['params'][0]['id']): pv})
                 wtm = 1 if name.startswith('W') else 0
                 r2 = _run_switchy(ev, pr2, {('v', pr2.d['params'][0]['id']): r1, ('v', pr2.d['params'][1]['id']): wtm})
@@ -247,8 +226,9 @@ def c3_files(fb, rep):
         reads = [(b, i, e) for b, i, e in rd.events() if e.get('k') == 'call' and cname(e).endswith('::read')]
         for b, i, e in reads:
             # after the read: stream state tested; on failure every byte is zeroed
-            brs = [bid for bid, blk in rd.blocks.items() if blk.get('term') and 'fs' in show(blk['term'].get('cond') or {}) and bid != b or
-                   (blk.get('term') and 'fs' in show(blk['term'].get('cond') or {}))]
+            def tests_stream(c):
+                return any(n.get('k') == 'var' and 'fstream' in (n.get('t') or '') + (n.get('rc') or '') for n in walk(c or {}))
+            brs = [bid for bid, blk in rd.blocks.items() if blk.get('term') and tests_stream(blk['term'].get('cond'))]
             tested = any(rd.pos_dominates((b, i), (x, 0)) or x == b for x in brs)
             zero = [(b2, e2) for b2, i2, e2 in rd.events() if e2.get('k') == 'asg' and 'data' in show(e2.get('l')) and (e2.get('r') or {}).get('cv') == 0]
             in_loop = any(G.loop_header_of(rd, b2) is not None for b2, e2 in zero)
@@ -264,29 +244,69 @@ def c3_files(fb, rep):
                    'zero-fill bound %s, read size %s' % (bound, show(_strip(sz))), rd.sname)
     ent = fb.record('PolyglotBook::PGEntry')
     es = None
-    for b, i, e in f.events():
-        if e.get('k') == 'decl':
-            for v in e.get('vars', []):
-                if v.get('n') == 'entSize':
-                    es = (v.get('init') or {}).get('cv')
+    size_ids = set()
+    if rd is not None:
+        for _, _, e_ in rd.events():
+            if e_.get('k') == 'call' and cname(e_).endswith('::read') and len(e_.get('args', [])) >= 2:
+                a_ = _strip(e_['args'][1])
+                if isinstance(a_, dict) and a_.get('k') == 'var':
+                    size_ids.add(a_.get('id'))
+                    if 'cv' in a_:
+                        es = a_['cv']
+    if es is None:
+        # the size variable is captured by the lambda: same name in the enclosing function
+        names_ = {(_strip(e_['args'][1]) or {}).get('n') for _, _, e_ in (rd.events() if rd is not None else []) if e_.get('k') == 'call' and cname(e_).endswith('::read') and len(e_.get('args', [])) >= 2}
+        for b, i, e in f.events():
+            if e.get('k') == 'decl':
+                for v in e.get('vars', []):
+                    if v.get('n') in names_ and isinstance(v.get('init'), dict) and 'cv' in v['init']:
+                        es = v['init']['cv']
     if rep.need(clause, ent, 'record PolyglotBook::PGEntry'):
         import re
         m = re.search(r'\[(\d+)\]', ent['fields'][0]['ct']) if ent['fields'] else None
         rep.ob(clause, 'K11 constant agreement', 'entry size read from the file equals the size of PGEntry::data', m is not None and es == int(m.group(1)), f.where,
                'entSize %s, array %s' % (es, m.group(1) if m else None), f.sname)
-    # binary search bounds
+    # binary search bounds: the loop `while (H - L > 1)`, L starts at -1, H at the number of entries, probes at (L + H) / 2
+    L = H = None
+    for bid, blk in f.blocks.items():
+        t = blk.get('term') or {}
+        c = _strip(t.get('cond'))
+        if t.get('c') == 'WhileStmt' and isinstance(c, dict) and c.get('k') == 'bin' and c.get('op') == '>' and (_strip(c.get('r')) or {}).get('cv') == 1:
+            d = _strip(c.get('l'))
+            if isinstance(d, dict) and d.get('k') == 'bin' and d.get('op') == '-' and isinstance(_strip(d['l']), dict) and isinstance(_strip(d['r']), dict):
+                H, L = _strip(d['l']).get('id'), _strip(d['r']).get('id')
     inits = {}
     for b, i, e in f.events():
         if e.get('k') == 'decl':
             for v in e.get('vars', []):
-                if v.get('n') in ('lo', 'hi'):
-                    inits[v['n']] = show(_strip(v.get('init')))
-    rep.ob(clause, 'K12 index bound', 'binary search starts from the exclusive bounds lo = -1, hi = numEntries', inits.get('lo') == '-1' and inits.get('hi') == 'numEntries', f.where, str(inits), f.sname)
-    # reads inside the search use mid, with lo < mid < hi; the loop condition is hi - lo > 1
-    cond_ok = any('((hi - lo) > 1)' in show((blk.get('term') or {}).get('cond') or {}) for blk in f.blocks.values())
-    mid_ok = any(e.get('k') == 'decl' and any(v.get('n') == 'mid' and show(_strip(v.get('init'))) == '((lo + hi) / 2)' for v in e.get('vars', [])) for _, _, e in f.events())
+                if v.get('id') in (L, H) and v.get('id') is not None:
+                    inits['lo' if v['id'] == L else 'hi'] = _strip(v.get('init'))
+    n_id = (inits.get('hi') or {}).get('id') if isinstance(inits.get('hi'), dict) else None
+    n_def = next((_strip(v.get('init')) for _, _, e in f.events() if e.get('k') == 'decl' for v in e.get('vars', []) if v.get('id') == n_id and n_id is not None), None)
+    div_ = _strip(n_def.get('r')) if isinstance(n_def, dict) and n_def.get('k') == 'bin' and n_def.get('op') == '/' else None
+    div_v = None
+    if isinstance(div_, dict):
+        div_v = div_.get('cv')
+        if div_v is None and div_.get('k') == 'var':
+            div_v = next(((v.get('init') or {}).get('cv') for _, _, e in f.events() if e.get('k') == 'decl' for v in e.get('vars', []) if v.get('id') == div_.get('id')), None)
+    n_ok = div_v is not None and div_v == es
+    lo0 = inits.get('lo')
+    lo_ok = isinstance(lo0, dict) and (lo0.get('cv') == -1 or (lo0.get('k') == 'un' and lo0.get('op') == '-' and (lo0.get('e') or {}).get('cv') == 1))
+    rep.ob(clause, 'K12 index bound', 'binary search starts from the exclusive bounds lo = -1, hi = numEntries', L is not None and lo_ok and n_ok, f.where,
+           'lo = %s, hi = %s = %s' % (show(lo0) if lo0 else None, show(inits.get('hi')) if inits.get('hi') else None, show(n_def) if n_def else None), f.sname)
+    cond_ok = L is not None
+    mid_ok = False
+    for b, i, e in f.events():
+        if e.get('k') == 'decl':
+            for v in e.get('vars', []):
+                m0 = _strip(v.get('init'))
+                if isinstance(m0, dict) and m0.get('k') == 'bin' and m0.get('op') == '/' and (_strip(m0.get('r')) or {}).get('cv') == 2:
+                    a0 = _strip(m0.get('l'))
+                    if isinstance(a0, dict) and a0.get('k') == 'bin' and a0.get('op') == '+' and {(_strip(a0['l']) or {}).get('id'), (_strip(a0['r']) or {}).get('id')} == {L, H}:
+                        mid_ok = True
     rep.ob(clause, 'K12 index bound', 'binary search probes mid = (lo + hi) / 2 only while hi - lo > 1 (so 0 <= mid < numEntries)', cond_ok and mid_ok, f.where, '', f.sname)
-    scan_ok = any(show((blk.get('term') or {}).get('cond') or {}) == '(entNo < numEntries)' for blk in f.blocks.values())
+    scan_ok = any(isinstance(_strip((blk.get('term') or {}).get('cond')), dict) and _strip(blk['term']['cond']).get('k') == 'bin' and _strip(blk['term']['cond']).get('op') == '<' and
+                  (_strip(_strip(blk['term']['cond']).get('r')) or {}).get('id') == n_id and n_id is not None and (blk.get('term') or {}).get('c') == 'ForStmt' for blk in f.blocks.values())
     rep.ob(clause, 'K12 index bound', 'the matching-entries scan is bounded by numEntries', scan_ok, f.where, '', f.sname)
     # every decoded entry goes through readEntry first
     dss = [(b, i, e) for b, i, e in f.events() if e.get('k') == 'call' and cname(e) == 'PolyglotBook::deSerialize']
@@ -295,11 +315,16 @@ def c3_files(fb, rep):
         rep.ob(clause, 'K2 must-precede', 'getBookEntries decodes only entries obtained through readEntry', w is None, R.site(f, e), '', f.sname)
     rep.floor(clause, 'deSerialize sites', len(dss), 2)
     # key match before a move is added
+    out_vec = {p_['id'] for p_ in f.d.get('params', []) if 'vector' in (p_.get('t') or '')}
+    hash_ids = {(_strip(e_['args'][1]) or {}).get('id') for _, _, e_ in f.events() if e_.get('k') == 'call' and cname(e_) == 'PolyglotBook::deSerialize' and len(e_.get('args', [])) >= 2}
+    key_ids = {v['id'] for _, _, e_ in f.events() if e_.get('k') == 'decl' for v in e_.get('vars', []) if any(n.get('k') == 'call' and cname(n) == 'PolyglotBook::getHashKey' for n in walk(v.get('init') or {}))}
     for b, i, e in f.events():
-        if e.get('k') == 'call' and cname(e).split('::')[-1] == 'push_back' and isinstance(e.get('recv'), dict) and e['recv'].get('n') == 'bookMoves':
+        if e.get('k') == 'call' and cname(e).split('::')[-1] == 'push_back' and isinstance(e.get('recv'), dict) and e['recv'].get('id') in out_vec:
             g = G.guards_of(f, set(f.blocks), b)
             # the `if (entHash != key) break;` precedes: block must be on the false side
-            brs = R.branch_blocks(f, lambda c: c.get('k') == 'bin' and c.get('op') in ('!=', '==') and 'entHash' in show(c) and 'key' in show(c))
+            brs = R.branch_blocks(f, lambda c: c.get('k') == 'bin' and c.get('op') in ('!=', '==') and
+                                  {(_strip(c.get('l')) or {}).get('id'), (_strip(c.get('r')) or {}).get('id')} & hash_ids and
+                                  {(_strip(c.get('l')) or {}).get('id'), (_strip(c.get('r')) or {}).get('id')} & key_ids)
             ok = False
             for bid, pol, t, fl in brs:
                 c = eff_cond(f.blocks[bid]['term'])
